@@ -435,7 +435,9 @@ func (t *Trans) call(target raft.ServerAddress, kind string, req interface{}, rd
 		return nil, err
 	}
 	if f.dup {
-		// the network delivers the same request a second time; its response is discarded
+		// the network delivers the same request a second time; its response is discarded.
+		// The copy is taken now: raft reuses the request struct for its next request.
+		req := copyReq(req)
 		go func() {
 			time.Sleep(f.delayResp + time.Millisecond)
 			t.net.mu.Lock()
